@@ -29,7 +29,7 @@ for line in open(os.path.join(VERIF, "properties.jsonl")):
         na.append({"property_id": pid, "reason": "not claimed: model, theorems and correspondence for this property are not finished (DESIGN.md section 8); no weaker technique is substituted"})
 man = {
     "version": 1,
-    "setup_cmd": "cd lean && lake build",
+    "setup_cmd": "./check setup",
     "hooks": static["hooks"],
     "engines": static["engines"],
     "checks": checks,
